@@ -721,6 +721,12 @@ Proof.
     + apply IH; auto. intros b ob Hb. apply Hg. now right.
 Qed.
 
+Lemma slice_from_in {A} (x : A) l : forall t, In x (slice_from l t) -> In x l.
+Proof.
+  induction l as [|y l IH]; intros t H; simpl in *; auto.
+  destruct (t <=? 0); auto. right. eapply IH; eauto.
+Qed.
+
 Section Live.
   Variable val : oracle.
   Variable w : world.
@@ -773,9 +779,8 @@ Section Live.
     unfold v_ordered. rewrite pure_bind. unfold ret. cbn [snd]. intros H.
     eapply live_slot_entries; [exact H|]. apply Forall_forall. intros o Ho.
     apply filter_In in Ho. destruct Ho as [Ho Hs]. destruct o as [x|]; [|discriminate].
-    apply live_item. unfold py_slice_from in Ho.
-    match type of Ho with In _ (skipn ?n ?l) => assert (Hin : In (Some x) l) by
-      (rewrite <- (firstn_skipn n l); apply in_or_app; now right) end.
+    apply live_item.
+    assert (Hin : In (Some x) (rack_of w f k)) by (eapply slice_from_in; eauto).
     unfold rack_of in Hin. destruct (get_fit w f) eqn:Ef; [|destruct Hin]. eapply own_racks; eauto.
   Qed.
   Lemma live_unordered k a out : snd (v_unordered prd w f k a tt) = Some out -> Forall K out.
@@ -940,7 +945,7 @@ Definition model_types : list Z :=
 Definition kinds_of (r : rid) : list Z := chan_kinds (rd_chan (desc r)).
 Definition param_of (r : rid) : list Z := chan_param (rd_chan (desc r)).
 
-Lemma tables_ok :
+Definition tables_statement : Prop :=
   (* the service registers exactly the modelled restrictions, under their types *)
   service_types = model_types /\
   (* subscribed message kinds per register *)
@@ -1044,4 +1049,35 @@ Lemma tables_ok :
   item_class_validator_Skill = [TypeCategoryId_skill] /\
   item_class_validator_Stance = [TypeGroupId_ship_modifier] /\
   item_class_validator_Subsystem = [TypeCategoryId_subsystem; EffectId_subsystem].
-Proof. vm_compute. repeat split; reflexivity. Qed.
+
+Lemma tables_ok : tables_statement.
+Proof. unfold tables_statement. vm_compute. repeat split; reflexivity. Qed.
+
+(* ------------------------------------------------------------------ *)
+(* faithfulness is an invariant of [Ops.md_op] — proved here only for   *)
+(* the operations that publish nothing on the register channels and     *)
+(* leave items untouched (the full statement is the message-discipline *)
+(* theorem of the engine layer)                                        *)
+
+Lemma faithful_frame : forall c evs evs' w w' f,
+  faithful c evs w f ->
+  chan_sigs c f evs' = [] ->
+  (forall x, cur_status c w' f x = cur_status c w f x) ->
+  faithful c (evs ++ evs') w' f.
+Proof.
+  intros c evs evs' w w' f H He Hs x. unfold chan_sigs in *. rewrite flat_map_app, He, app_nil_r, Hs. apply H.
+Qed.
+
+Definition quiet_op (o : op) : bool :=
+  match o with
+  | ONewSolsys _ | ORead _ _ | OGet _ _ | OKeys _ | OEffects _ => true
+  | _ => false
+  end.
+
+Theorem faithful_md_op_partial : forall evs w f o,
+  quiet_op o = true -> faithful_all evs w f ->
+  faithful_all (evs ++ snd (fst (md_op w o))) (fst (fst (md_op w o))) f.
+Proof.
+  intros evs w f o Hq H r. destruct o; try discriminate Hq; simpl;
+    (apply faithful_frame with (w := w); [apply H|reflexivity|]); intros x; reflexivity.
+Qed.
